@@ -3,6 +3,7 @@ package rules
 import (
 	"fmt"
 	"go/token"
+	"go/types"
 	"sort"
 
 	"golang.org/x/tools/go/callgraph"
@@ -16,11 +17,39 @@ import (
 // function all of whose returns are fresh (fixed point over static callees).
 type freshInfo struct {
 	returnsFresh map[*ssa.Function]bool
+	// dynamic call sites (function values, method expressions handed around): their possible callees from VTA
+	dyn map[ssa.CallInstruction][]*ssa.Function
 }
 
 func computeFresh(p *core.Program) *freshInfo {
-	fi := &freshInfo{returnsFresh: map[*ssa.Function]bool{}}
+	fi := &freshInfo{returnsFresh: map[*ssa.Function]bool{}, dyn: map[ssa.CallInstruction][]*ssa.Function{}}
+	for _, n := range p.VTA().Nodes {
+		if n == nil || n.Func == nil {
+			continue
+		}
+		for _, e := range n.Out {
+			if e.Site == nil || e.Site.Common().StaticCallee() != nil || e.Callee == nil || e.Callee.Func == nil {
+				continue
+			}
+			fi.dyn[e.Site] = append(fi.dyn[e.Site], e.Callee.Func)
+		}
+	}
 	fns := p.ModuleFunctions()
+	// wrappers (method-expression thunks, bound-method closures) that dynamic sites may denote take part too
+	{
+		have := map[*ssa.Function]bool{}
+		for _, fn := range fns {
+			have[fn] = true
+		}
+		for _, cs := range fi.dyn {
+			for _, callee := range cs {
+				if !have[callee] && callee.Blocks != nil && isWrapper(callee) && core.InModule(callee) {
+					have[callee] = true
+					fns = append(fns, callee)
+				}
+			}
+		}
+	}
 	// optimistic start for functions returning pointers, then remove
 	for _, fn := range fns {
 		fi.returnsFresh[fn] = true
@@ -76,6 +105,15 @@ func (fi *freshInfo) isFresh(v ssa.Value, depth int) bool {
 				return false
 			}
 			return fi.returnsFresh[callee]
+		}
+		// a call through a function value: fresh when every function it can denote returns fresh memory
+		if cs := fi.dyn[x]; len(cs) > 0 && !x.Call.IsInvoke() {
+			for _, callee := range cs {
+				if callee.Blocks == nil || !fi.returnsFresh[callee] {
+					return false
+				}
+			}
+			return true
 		}
 		return false
 	case *ssa.Phi:
@@ -164,6 +202,47 @@ func s3(p *core.Program, a *spec.Anchors, r *core.Report, writes, reads bool) {
 						continue
 					}
 					fr, ok := asFieldAddr(x.Addr)
+					// a field of a struct-VALUED field or an element of an array-valued field of a tensor / context
+					// (&t.memo.max, &t.hist[i]) is a write into that tensor / context: find the outermost such field
+					{
+						cur := x.Addr
+						path := ""
+						for depth := 0; depth < 8; depth++ {
+							switch y := cur.(type) {
+							case *ssa.FieldAddr:
+								if o, isO := asFieldAddr(y); isO && (sameNamed(o.Struct, a.GradContext) || sameNamed(o.Struct, a.CPUTensor)) {
+									if path != "" {
+										o.Name = o.Name + path
+									}
+									fr, ok = o, true
+									depth = 8
+									continue
+								}
+								nm := fmt.Sprintf("#%d", y.Field)
+								if pt, isP := y.X.Type().Underlying().(*types.Pointer); isP {
+									if st, isS := pt.Elem().Underlying().(*types.Struct); isS && y.Field < st.NumFields() {
+										nm = st.Field(y.Field).Name()
+									}
+								}
+								path = "." + nm + path
+								cur = y.X
+							case *ssa.IndexAddr:
+								pt, isP := y.X.Type().Underlying().(*types.Pointer)
+								if !isP {
+									depth = 8 // a slice element lives in the slice's own array (S4's business)
+									continue
+								}
+								if _, isArr := pt.Elem().Underlying().(*types.Array); !isArr {
+									depth = 8
+									continue
+								}
+								path = "[i]" + path
+								cur = y.X
+							default:
+								depth = 8
+							}
+						}
+					}
 					if !ok {
 						continue
 					}
